@@ -52,9 +52,9 @@ theorem absConn_withOut (c : Conn) (out : Rows) (os : Int) :
     absConn (withOut c out os) = { absConn c with out := out.map absRow } := rfl
 
 /-- result of the loop -/
-def LoopRes (env : Env) (c : Conn) (rows : Rows) (gfb gfe cur : Int) : Prop :=
+def LoopRes (env : Env) (endNo : Int) (c : Conn) (rows : Rows) (gfb gfe cur : Int) : Prop :=
   ∃ (out' : Rows) (os : Int) (eff : List Effect) (gfb' gfe' : Int),
-    resendLoop env srAll (rows.map (·.2)) gfb gfe c = ⟨.ok (gfb', gfe'), withOut c out' os, eff⟩ ∧
+    resendLoop env srAll endNo (rows.map (·.2)) gfb gfe c = ⟨.ok (gfb', gfe'), withOut c out' os, eff⟩ ∧
     (∀ (ac : AConn) acc, ac.out = c.journal.out.map absRow → resendRows (rows.map absRow) gfb ac acc =
       ({ ac with out := out'.map absRow }, acc ++ (writesOf eff).map absFrame, gfb')) ∧
     AllLt gfb' out' ∧ gfb ≤ gfb' ∧ gfb' ≤ cur ∧ gfe' ≤ cur ∧ deliveriesOf eff = [] ∧
@@ -65,47 +65,50 @@ def LoopRes (env : Env) (c : Conn) (rows : Rows) (gfb gfe cur : Int) : Prop :=
 
 theorem withOut_self (c : Conn) : withOut c c.journal.out c.journal.outSeq = c := rfl
 
-theorem resendLoop_cons_sess {env : Env} {row : Msg} {k : Int} (rest : List Msg) (gfb gfe : Int) (c : Conn)
-    (h34 : row.get? tMsgSeqNum = some (pyStr k)) (h35 : row.get? tMsgType = some row.mtype)
-    (ha : ¬ IsAppRow row) :
-    resendLoop env srAll (row :: rest) gfb gfe c = resendLoop env srAll rest gfb (k + 1) c := by
+theorem resendLoop_cons_sess {env : Env} {endNo : Int} {row : Msg} {k : Int} (rest : List Msg) (gfb gfe : Int)
+    (c : Conn) (h34 : row.get? tMsgSeqNum = some (pyStr k)) (h35 : row.get? tMsgType = some row.mtype)
+    (ha : ¬ IsAppRow row) (hle : ¬ k > endNo) :
+    resendLoop env srAll endNo (row :: rest) gfb gfe c = resendLoop env srAll endNo rest gfb (k + 1) c := by
   have hc : ConnEnum.noReplay.contains row.mtype = true := by
     cases h : ConnEnum.noReplay.contains row.mtype
     · exact absurd h ha
     · rfl
   rw [resendLoop]
   simp only [M.bind_apply, M.liftE_apply, get_of_get? h34, M.int_apply, pyInt_pyStr, get_of_get? h35, hc,
-    Bool.true_or, if_true, List.nil_append]
+    Bool.true_or, if_true, List.nil_append, hle, if_false]
 
-theorem resendLoop_cons_app {env : Env} {row : Msg} {k : Int} (rest : List Msg) (gfb gfe : Int) (c : Conn)
-    (h34 : row.get? tMsgSeqNum = some (pyStr k)) (h35 : row.get? tMsgType = some row.mtype)
-    (ha : IsAppRow row) :
-    resendLoop env srAll (row :: rest) gfb gfe c =
+theorem resendLoop_cons_app {env : Env} {endNo : Int} {row : Msg} {k : Int} (rest : List Msg) (gfb gfe : Int)
+    (c : Conn) (h34 : row.get? tMsgSeqNum = some (pyStr k)) (h35 : row.get? tMsgType = some row.mtype)
+    (ha : IsAppRow row) (hle : ¬ k > endNo) :
+    resendLoop env srAll endNo (row :: rest) gfb gfe c =
       (((if gfb < k then sendMsg env (gapFillMsg gfb k) else pure ()) >>= fun _ =>
         M.liftE (prepareReplay row) >>= fun rp => sendMsg env rp >>= fun _ =>
-        resendLoop env srAll rest (k + 1) gfe) : M (Int × Int)) c := by
+        resendLoop env srAll endNo rest (k + 1) gfe) : M (Int × Int)) c := by
   have hc : ConnEnum.noReplay.contains row.mtype = false := ha
   rw [resendLoop]
   by_cases hlt : gfb < k <;>
     simp only [M.bind_apply, M.liftE_apply, get_of_get? h34, M.int_apply, pyInt_pyStr, get_of_get? h35, hc, srAll,
-      Bool.not_true, Bool.or_self, Bool.false_eq_true, if_false, List.nil_append, hlt, if_true, M.pure_apply]
+      Bool.not_true, Bool.or_self, Bool.false_eq_true, if_false, List.nil_append, hlt, if_true, M.pure_apply, hle]
 
-theorem resendLoop_eval (env : Env) (cur : Int) :
+theorem resendLoop_eval (env : Env) (endNo cur : Int) :
     ∀ (rows : Rows) (c : Conn) (gfb gfe : Int), LoopConn env c → Sorted rows →
+      (∀ r ∈ rows, r.1 ≤ endNo) →
       (∀ r ∈ rows, gfb ≤ r.1 ∧ r.1 < cur) →
       (∀ r ∈ rows, FrameGood c.sess.sender c.sess.target r.2 ∧ r.2.get? tMsgSeqNum = some (pyStr r.1)) →
-      AllLt gfb c.journal.out → gfb ≤ cur → gfe ≤ cur → LoopRes env c rows gfb gfe cur := by
+      AllLt gfb c.journal.out → gfb ≤ cur → gfe ≤ cur → LoopRes env endNo c rows gfb gfe cur := by
   intro rows
   induction rows with
   | nil =>
-    intro c gfb gfe _ _ _ _ hlt hb he
+    intro c gfb gfe _ _ _ _ _ hlt hb he
     refine ⟨c.journal.out, c.journal.outSeq, [], gfb, gfe, ?_, ?_, hlt, Int.le_refl _, hb, he, rfl, by simp [writesOf], [], by simp,
       List.Pairwise.nil, by simp⟩
     · simp [resendLoop, withOut_self]
     · intro ac acc hac; simp [resendRows, writesOf, ← hac]
   | cons r rest ih =>
-    intro c gfb gfe hL hs hk hg hlt hb he
+    intro c gfb gfe hL hs hend hk hg hlt hb he
     obtain ⟨k, row⟩ := r
+    have hle : ¬ k > endNo := by have := hend (k, row) (by simp); simp only at this; omega
+    have hend' : ∀ r ∈ rest, r.1 ≤ endNo := fun r hr => hend r (by simp [hr])
     have hs' := List.pairwise_cons.mp hs
     obtain ⟨hk1, hk2⟩ := hk (k, row) (by simp)
     obtain ⟨hgood, h34⟩ := hg (k, row) (by simp)
@@ -169,11 +172,11 @@ theorem resendLoop_eval (env : Env) (cur : Int) :
       -- the rest of the loop
       have hL2 := loopConn_withOut hL (o1 ++ [(k, frame)]) k
       obtain ⟨out', os, eff, gfb', gfe', hr1, hr2, hr3, hr3', hr4, hr5, hr6, hr7, ⟨new2, hn2, hsn2, hnew2⟩⟩ :=
-        ih (withOut c (o1 ++ [(k, frame)]) k) (k + 1) gfe hL2 hs'.2 hrest_k hrest_g
+        ih (withOut c (o1 ++ [(k, frame)]) k) (k + 1) gfe hL2 hs'.2 hend' hrest_k hrest_g
           (allLt_push hl1) (by omega) he
       refine ⟨out', os, e1 ++ ([.write frame] ++ eff), gfb', gfe', ?_, ?_, hr3, by omega, hr4, hr5, ?_, ?_,
         ⟨new1 ++ [(k, frame)] ++ new2, ?_, ?_, ?_⟩⟩
-      · rw [List.map_cons, resendLoop_cons_app _ _ _ _ h34 h35 ha, M.bind_ok hs1]
+      · rw [List.map_cons, resendLoop_cons_app _ _ _ _ h34 h35 ha hle, M.bind_ok hs1]
         simp only [M.bind_apply, M.liftE_apply, prepareReplay_ok hgood]
         rw [show (withOut c o1 os1).journal.out = o1 from rfl] at hsend
         simp only [hsend, hr1, withOut_withOut, List.nil_append]
@@ -221,10 +224,10 @@ theorem resendLoop_eval (env : Env) (cur : Int) :
           exact ⟨by omega, a2, a3, a4⟩
     · -- session-level row: skipped
       obtain ⟨out', os, eff, gfb', gfe', hr1, hr2, hr3, hr3', hr4, hr5, hr6, hr7, hr8⟩ :=
-        ih c gfb (k + 1) hL hs'.2 (fun r hr => ⟨by have := (hrest_k r hr).1; omega, (hrest_k r hr).2⟩) hrest_g hlt hb
+        ih c gfb (k + 1) hL hs'.2 hend' (fun r hr => ⟨by have := (hrest_k r hr).1; omega, (hrest_k r hr).2⟩) hrest_g hlt hb
           (by omega)
       refine ⟨out', os, eff, gfb', gfe', ?_, ?_, hr3, hr3', hr4, hr5, hr6, hr7, hr8⟩
-      · rw [List.map_cons, resendLoop_cons_sess _ _ _ _ h34 h35 ha]; exact hr1
+      · rw [List.map_cons, resendLoop_cons_sess _ _ _ _ h34 h35 ha hle]; exact hr1
       · intro ac acc hac
         simp only [List.map_cons, absRow_of_sessRow ha, resendRows]
         exact hr2 ac acc hac
